@@ -29,6 +29,8 @@ VALUES = {
 SETTERS = ['Dp', 'fluid', 'D50', 'Cv', 'rhom', 'rhos', 'epsilon', 'max_index', 'generate_GSD']
 READS_G = ['GSD', 'get_dx', 'Erhg']
 READS_C = ['vls_list', 'Erhg_curves', 'im_curves', 'LDV_curves', 'LDV85_curves']
+# reads of derived scalars and lookups that touch neither flag (they must not leave a trace either)
+READS_S = ['Rsd', 'rhom_read', 'Cvi', 'Dmean', 'im_point', 'il_point', 'get_dx_25', 'str']
 
 
 class Tracker:
@@ -79,6 +81,17 @@ def apply(obj, op, state):
             _ = obj.Erhg(3.0)
     elif name in READS_C:
         _ = getattr(obj, name)
+    elif name in READS_S:
+        if name == 'im_point':
+            _ = obj.im(2.5)
+        elif name == 'il_point':
+            _ = obj.il(2.5)
+        elif name == 'get_dx_25':
+            _ = obj.get_dx(0.25)
+        elif name == 'str':
+            _ = str(obj)
+        else:
+            _ = getattr(obj, name.removesuffix('_read'))
     else:
         setattr(obj, name, val)
         state[name] = val
@@ -117,15 +130,20 @@ def close(a, b, tol=1e-9):
     return a == b
 
 
-def observables(s):
-    ec = dict(s.Erhg_curves)
-    ec.pop('Erhg_objects', None)
-    return {
-        'GSD': s.GSD, 'vls_list': s.vls_list, 'Erhg_curves': ec, 'im_curves': s.im_curves, 'LDV_curves': s.LDV_curves,
-        'LDV85_curves': s.LDV85_curves, 'il': s.il(3.0), 'Erhg': s.Erhg(3.0), 'im': s.im(3.0), 'Rsd': s.Rsd, 'Cvi': s.Cvi,
-        'rhom': s.rhom, 'Dmean': s.Dmean, 'dx': [s.get_dx(f) for f in (0.15, 0.5, 0.85)], 'str': str(s),
-        'params': (s.Dp, s.epsilon, s.fluid, s.nu, s.rhol, s.D50, s.Cv, s.rhos, s.max_index, s.rhoi),
-    }
+def observables(s, rng=None):
+    """everything the object exposes; with `rng` the reading ORDER is shuffled (a stale value may heal once something else has been read)"""
+    def curves():
+        ec = dict(s.Erhg_curves)
+        ec.pop('Erhg_objects', None)
+        return ec
+    readers = [('GSD', lambda: s.GSD), ('vls_list', lambda: s.vls_list), ('Erhg_curves', curves), ('im_curves', lambda: s.im_curves),
+               ('LDV_curves', lambda: s.LDV_curves), ('LDV85_curves', lambda: s.LDV85_curves), ('il', lambda: s.il(3.0)), ('Erhg', lambda: s.Erhg(3.0)),
+               ('im', lambda: s.im(3.0)), ('Rsd', lambda: s.Rsd), ('Cvi', lambda: s.Cvi), ('rhom', lambda: s.rhom), ('Dmean', lambda: s.Dmean),
+               ('dx', lambda: [s.get_dx(f) for f in (0.15, 0.5, 0.85)]), ('str', lambda: str(s)),
+               ('params', lambda: (s.Dp, s.epsilon, s.fluid, s.nu, s.rhol, s.D50, s.Cv, s.rhos, s.max_index, s.rhoi))]
+    if rng is not None:
+        rng.shuffle(readers)
+    return {k: f() for k, f in readers}
 
 
 def diff_obs(a, b):
@@ -136,6 +154,9 @@ def model_token(op, codes):
     name, val = op
     if name == 'generate_GSD':
         return 'g:-' if val is None else 'g:' + str(codes.setdefault(('shape', val), len(codes) + 1))
+    if name in READS_S:
+        # lookups and pointwise gradients read the grading (like the G-reads); pure scalars touch no flag and are not events of the state machine
+        return 'rg' if name in ('im_point', 'get_dx_25', 'Dmean', 'str') else None
     if name in READS_G:
         return 'rg'
     if name in READS_C:
@@ -154,7 +175,7 @@ def interleave_reads(ctx, ops, p=0.5):
     out = []
     for op in ops:
         if ctx.rng.random() < p:
-            out.append((ctx.rng.choice(READS_G + READS_C), None))
+            out.append((ctx.rng.choice(READS_G + READS_C + READS_S), None))
         out.append(op)
     return out
 
@@ -175,6 +196,7 @@ def correspondence(ctx):
     for _ in range(ctx.n(150, 3000)):
         hs.append(random_history(ctx, ctx.rng.randint(3, 12)) + [(ctx.rng.choice(READS_C), None)])
     lines = []
+    hs = [[op for op in h if model_token(op, {}) is not None] for h in hs]
     for h in hs:
         codes = {}
         lines.append('spec.slurry ' + ' '.join(model_token(op, codes) for op in h))
@@ -205,13 +227,16 @@ def run_history(ctx, h, label):
     try:
         for op in h:
             apply(obj, op, st)
-        bad = diff_obs(observables(obj), observables(fresh(st)))
+        got = observables(obj, ctx.rng)
+        order = list(got.keys())
+        bad = diff_obs(got, observables(fresh(st)))
     except Exception as e:   # noqa
         bad = [f'raised {type(e).__name__}: {e}']
+        order = []
     ctx.count('evaluations')
     if bad:
-        ctx.violation(f'after the history the object differs from a freshly built one on {bad}', {'history': [list(map(str, x)) for x in h], 'final': {k: str(v) for k, v in st.items()}},
-                      key='stale')
+        ctx.violation(f'after the history the object differs from a freshly built one on {bad}',
+                      {'history': [list(map(str, x)) for x in h], 'final': {k: str(v) for k, v in st.items()}, 'read_order': order}, key='stale')
     return not bad
 
 
